@@ -17,3 +17,15 @@ package controller
 //@   callsite CommitCertificate requires[ids] (syncing && qc.Header.Height % CheckpointFrequency != 0) || (qc.Header.NetworkId == c.Config.NetworkID && qc.Header.ChainId == c.Config.ChainId)
 //@   callsite CommitCertificate requires[certified] (syncing && qc.Header.Height % CheckpointFrequency != 0) || (aggVerifies(committeeOf(v.MultiKey), bytes(qc.Signature.Bitmap), signBytesOf(qc), bytes(qc.Signature.Signature)) && signedPowerW(v.ValidatorSet.ValidatorSet, bytes(qc.Signature.Bitmap), false, len(v.ValidatorSet.ValidatorSet)) >= v.MinimumMaj23)
 //@   callsite CommitCertificate requires[committee] (syncing && qc.Header.Height % CheckpointFrequency != 0) || committeeOf(v.MultiKey) == committeeAt(rootChainIdAt(qc.Header.Height), qc.Header.RootHeight)
+
+// the previous block's certificate carried in a header is written to the store only if it names the block and
+// results this node committed at height-1 and - outside sync - verifies as a full +2/3 certificate of the
+// committee in force at its root height, for exactly height-1 on this network and chain
+//@ func (*Controller).Syncing
+//@   pure
+//@   ensures result == c.isSyncing
+//@ func (*Controller).CheckAndSetLastCertificate
+//@   callsite IndexQC requires[committed] candidate.Height > 1 && arg1 == candidate.LastQuorumCertificate && bytes(candidate.LastQuorumCertificate.BlockHash) == bytes(lastCertificate.BlockHash) && bytes(candidate.LastQuorumCertificate.ResultsHash) == bytes(lastCertificate.ResultsHash)
+//@   callsite IndexQC requires[certified] atomicFlag(c.isSyncing) || (aggVerifies(committeeOf(vs.MultiKey), bytes(candidate.LastQuorumCertificate.Signature.Bitmap), signBytesOf(candidate.LastQuorumCertificate), bytes(candidate.LastQuorumCertificate.Signature.Signature)) && signedPowerW(vs.ValidatorSet.ValidatorSet, bytes(candidate.LastQuorumCertificate.Signature.Bitmap), false, len(vs.ValidatorSet.ValidatorSet)) >= vs.MinimumMaj23)
+//@   callsite IndexQC requires[view] atomicFlag(c.isSyncing) || (candidate.LastQuorumCertificate.Header.Height == candidate.Height - 1 && candidate.LastQuorumCertificate.Header.NetworkId == c.Config.NetworkID && candidate.LastQuorumCertificate.Header.ChainId == c.Config.ChainId)
+//@   callsite IndexQC requires[committee] atomicFlag(c.isSyncing) || committeeOf(vs.MultiKey) == committeeAt(rootChainIdAt(candidate.LastQuorumCertificate.Header.Height), candidate.LastQuorumCertificate.Header.RootHeight)
